@@ -94,7 +94,85 @@ static void op_pc_param(int argc, char **argv) {
 	fprintf(OUT, " a2="); fp2_printx(ep2_curve_get_a()); fprintf(OUT, " b2="); fp2_printx(ep2_curve_get_b());
 	fprintf(OUT, " g2="); fp2_printx(g2->x); fputc(',', OUT); fp2_printx(g2->y);
 	fprintf(OUT, " gt="); fp12_out(e);
-	fprintf(OUT, " family=%d\n", ep_curve_is_pairf());
+	fprintf(OUT, " family=%d", ep_curve_is_pairf());
+	/* what pp_exp_k12 / pp_map_k12 switch on, BY NAME (the enum values are not part of the contract), and the sparse form of
+	 * the curve parameter the final exponentiation and the Miller loop iterate over */
+	fprintf(OUT, " famname=%s parname=%s", ep_curve_is_pairf() == EP_BN ? "EP_BN" : ep_curve_is_pairf() == EP_B12 ? "EP_B12" : "other",
+		ep_param_get() == SM9_P256 ? "SM9_P256" : "other");
+	fprintf(OUT, " optbtwo=%d", ep_curve_opt_b() == RLC_TWO);
+#if PP_MAP == OATEP
+	fprintf(OUT, " ppmap=OATEP");
+#elif PP_MAP == TATEP
+	fprintf(OUT, " ppmap=TATEP");
+#elif PP_MAP == WEILP
+	fprintf(OUT, " ppmap=WEILP");
+#endif
+	{
+		int l = 0; const int *b = fp_prime_get_par_sps(&l);
+		fprintf(OUT, " sps=");
+		if (l == 0 || b == NULL) fprintf(OUT, ".");
+		for (int i = 0; i < l; i++) fprintf(OUT, "%s%d", i ? "," : "", b[i]);
+	}
+	fputc('\n', OUT);
+}
+
+/* fexp sep|ali <a> : the final exponentiation pp_exp_k12 on an ARBITRARY element of Fp12 (not only Miller-loop outputs);
+ * "ali": result written over the operand (how pp_map_* call it) */
+static void op_fexp(int argc, char **argv) {
+	if (argc < 3) { fprintf(OUT, "bad-args\n"); return; }
+	int caught = 0; fp12_t a, c;
+	fp12_null(a); fp12_new(a); fp12_null(c); fp12_new(c);
+	if (!fp12_tok(a, argv[2])) { fprintf(OUT, "bad-args\n"); return; }
+	fp12_zero(c);
+	RLC_TRY {
+		if (!strcmp(argv[1], "ali")) { fp12_copy(c, a); pp_exp_k12(c, c); }
+		else if (!strcmp(argv[1], "sep")) pp_exp_k12(c, a);
+		else { fprintf(OUT, "unknown-fexp\n"); return; }
+	} RLC_CATCH_ANY { caught = 1; }
+	if (take_err() || caught) fprintf(OUT, "err"); else fp12_out(c);
+	fputc('\n', OUT);
+}
+
+/* fcyc sep|ali <a> : fp12_conv_cyc, the easy part (p^6 - 1)(p^2 + 1) */
+static void op_fcyc(int argc, char **argv) {
+	if (argc < 3) { fprintf(OUT, "bad-args\n"); return; }
+	int caught = 0; fp12_t a, c;
+	fp12_null(a); fp12_new(a); fp12_null(c); fp12_new(c);
+	if (!fp12_tok(a, argv[2])) { fprintf(OUT, "bad-args\n"); return; }
+	fp12_zero(c);
+	RLC_TRY {
+		if (!strcmp(argv[1], "ali")) { fp12_copy(c, a); fp12_conv_cyc(c, c); }
+		else fp12_conv_cyc(c, a);
+	} RLC_CATCH_ANY { caught = 1; }
+	if (take_err() || caught) fprintf(OUT, "err"); else fp12_out(c);
+	fputc('\n', OUT);
+}
+
+/* expsps sep|ali <a> pos|neg <b0,b1,...|.> : fp12_exp_cyc_sps on a (cyclotomic) element with an arbitrary sparse form */
+static void op_expsps(int argc, char **argv) {
+	if (argc < 5) { fprintf(OUT, "bad-args\n"); return; }
+	int caught = 0, b[64], l = 0; fp12_t a, c;
+	fp12_null(a); fp12_new(a); fp12_null(c); fp12_new(c);
+	if (!fp12_tok(a, argv[2])) { fprintf(OUT, "bad-args\n"); return; }
+	if (strcmp(argv[4], ".")) {
+		const char *p = argv[4];
+		while (*p && l < 64) {
+			int v = parse_int(p);
+			/* bound the number of squarings the line can ask for */
+			if (v > 4096 || v < -4096) { fprintf(OUT, "bad-args\n"); return; }
+			b[l++] = v;
+			p = strchr(p, ',');
+			if (!p) break;
+			p++;
+		}
+	}
+	fp12_zero(c);
+	RLC_TRY {
+		if (!strcmp(argv[1], "ali")) { fp12_copy(c, a); fp12_exp_cyc_sps(c, c, b, l, !strcmp(argv[3], "neg") ? RLC_NEG : RLC_POS); }
+		else fp12_exp_cyc_sps(c, a, b, l, !strcmp(argv[3], "neg") ? RLC_NEG : RLC_POS);
+	} RLC_CATCH_ANY { caught = 1; }
+	if (take_err() || caught) fprintf(OUT, "err"); else fp12_out(c);
+	fputc('\n', OUT);
 }
 
 /* pcv g1|g2|gt <element> : the validity predicates */
@@ -275,8 +353,67 @@ static void op_pps(int argc, char **argv) {
 	fputc('\n', OUT);
 }
 
+/* ppms <variant> <n> <P1> <Q1> ... : the multi-pairing value alone (compared with the Miller-loop model) */
+static void op_ppms(int argc, char **argv) {
+	if (argc < 3) { fprintf(OUT, "bad-args\n"); return; }
+	int n = parse_int(argv[2]), caught = 0;
+	if (n < 0 || n > 8 || argc < 3 + 2 * n) { fprintf(OUT, "bad-args\n"); return; }
+	static ep_t ps[8]; static ep2_t qs[8]; fp12_t m;
+	fp12_null(m); fp12_new(m);
+	for (int i = 0; i < n; i++) { ep_null(ps[i]); ep_new(ps[i]); ep2_null(qs[i]); ep2_new(qs[i]);
+		ep_tok(ps[i], argv[3 + 2 * i]); ep2_tok(qs[i], argv[4 + 2 * i]); }
+	const char *v = argv[1];
+	RLC_TRY {
+		if (!strcmp(v, "map")) pc_map_sim(m, ps, qs, n);
+		else if (!strcmp(v, "tatep")) pp_map_sim_tatep_k12(m, ps, qs, n);
+		else if (!strcmp(v, "weilp")) pp_map_sim_weilp_k12(m, ps, qs, n);
+		else if (!strcmp(v, "oatep")) pp_map_sim_oatep_k12(m, ps, qs, n);
+		else RLC_THROW(ERR_NO_VALID);
+	} RLC_CATCH_ANY { caught = 1; }
+	if (take_err() || caught) { fprintf(OUT, "err\n"); return; }
+	fp12_out(m); fputc('\n', OUT);
+}
+
+/* lfn dbl <T> <P> | add <T> <Q> <P> | dbll <T in G1> <Q> | addl <T in G1> <P> <Q> : the line functions of the Miller loops, called the
+ * way pp_mil_k12 / pp_mil_lit_k12 call them (precomputed (3x_P, -y_P) resp. -Q for the doublings); T may be given in projective
+ * coordinates ("…,z,P" tokens); prints "<l> <the updated running point, normalised>" */
+static void op_lfn(int argc, char **argv) {
+	if (argc < 4) { fprintf(OUT, "bad-args\n"); return; }
+	int caught = 0; fp12_t l; ep2_t t2, q2, nq; ep_t t1, p1, _p;
+	fp12_null(l); fp12_new(l); ep2_null(t2); ep2_new(t2); ep2_null(q2); ep2_new(q2); ep2_null(nq); ep2_new(nq);
+	ep_null(t1); ep_new(t1); ep_null(p1); ep_new(p1); ep_null(_p); ep_new(_p);
+	const char *v = argv[1];
+	int lit = 0;
+	fp12_zero(l);
+	RLC_TRY {
+		if (!strcmp(v, "dbl")) {
+			ep2_tok(t2, argv[2]); ep_tok(p1, argv[3]);
+#if EP_ADD == BASIC
+			ep_neg(_p, p1);
+#else
+			fp_add(_p->x, p1->x, p1->x); fp_add(_p->x, _p->x, p1->x); fp_neg(_p->y, p1->y);
+#endif
+			pp_dbl_k12(l, t2, t2, _p);
+		} else if (!strcmp(v, "add") && argc >= 5) {
+			ep2_tok(t2, argv[2]); ep2_tok(q2, argv[3]); ep_tok(p1, argv[4]);
+			pp_add_k12(l, t2, q2, p1);
+		} else if (!strcmp(v, "dbll")) {
+			lit = 1; ep_tok(t1, argv[2]); ep2_tok(q2, argv[3]); ep2_neg(nq, q2);
+			pp_dbl_lit_k12(l, t1, t1, nq);
+		} else if (!strcmp(v, "addl") && argc >= 5) {
+			lit = 1; ep_tok(t1, argv[2]); ep_tok(p1, argv[3]); ep2_tok(q2, argv[4]);
+			pp_add_lit_k12(l, t1, p1, q2);
+		} else { fprintf(OUT, "unknown-lfn\n"); return; }
+	} RLC_CATCH_ANY { caught = 1; }
+	if (take_err() || caught) { fprintf(OUT, "err\n"); return; }
+	fp12_out(l); fputc(' ', OUT);
+	if (lit) ep_out(t1); else ep2_out(t2);
+	fputc('\n', OUT);
+}
+
 const op_t ops_pc[] = {
 	{"pc_param", op_pc_param}, {"pcv", op_pcv}, {"gtel", op_gtel}, {"g1m", op_gm}, {"g2m", op_gm}, {"g1s", op_gs}, {"g2s", op_gs},
 	{"gte", op_gte}, {"pp", op_pp}, {"ppb", op_ppb}, {"pps", op_pps},
+	{"fexp", op_fexp}, {"fcyc", op_fcyc}, {"expsps", op_expsps}, {"ppm", op_pp}, {"ppms", op_ppms}, {"lfn", op_lfn},
 	{NULL, NULL}
 };
